@@ -179,6 +179,21 @@ func iosIntfSpace() *space {
 	return sp
 }
 
+// iosIntfKwSpace: the cases of space intf on sub-interfaces whose type the
+// device prints behind the name ('interface Serial0/0.1 point-to-point');
+// Netspoc names the interface only.
+func iosIntfKwSpace() *space {
+	in := iosIntfSpace()
+	sp := &space{name: "intf-kw", model: "IOS", n: in.n}
+	sp.gen = func(i int64) (core.Files, core.Files) {
+		a, b := in.gen(i)
+		a.Main = strings.NewReplacer("interface Ethernet0\n", "interface Serial0/0.1 point-to-point\n", "interface Ethernet1\n", "interface Serial0/0.2 multipoint\n").Replace(a.Main)
+		b.Main = strings.NewReplacer("interface Ethernet0\n", "interface Serial0/0.1\n", "interface Ethernet1\n", "interface Serial0/0.2\n").Replace(b.Main)
+		return a, b
+	}
+	return sp
+}
+
 // crypto map with filter ACLs
 func iosCryptoSpace() *space {
 	mk := func(v int, dev bool) string {
@@ -319,6 +334,7 @@ func iosSpaces(ctx *core.Ctx) []*space {
 		iosVRFSpace(),
 		iosVRFIntfSpace(),
 		iosIntfSpace(),
+		iosIntfKwSpace(),
 		iosCryptoSpace(),
 		iosEditSpace(),
 		iosSpellSpace(),
@@ -344,7 +360,7 @@ func c02Worker(ctx *core.Ctx) *core.Result {
 func init() {
 	registerSharded("C02", c02Worker, func(tier string) core.Meta {
 		return core.Meta{ID: "C02", Level: "model_checking",
-			Rule:        "states = distinct device-model states (per worker, summed); transitions = runs of the real planner; enumerated: all (device,target) pairs of the spaces acl (block structured, device printed with and without IOS-XE sequence numbers), acl-log (the same rule with none/log/log-input on either side, len<=4), rt, vrf, vrf-intf (every VRF known through an interface), intf, crypto, value-edit (one argument token of the target changed by a single-character edit), noise (one unmodelled toplevel block inserted at every toplevel position; the script must equal the one without it), raw-blocks (target ACL = two blocks of that ACL in the raw file + the Netspoc lines, device another sequence: incremental change towards a merged target), corpus (ios_*.t) and a breadth-first chain of approves; the script is executed on the reference IOS model (sequence numbers, resequence, interface and crypto-map sub-modes); oracle: per managed interface the bound ACLs as sequences of maximal same-action runs (each a set), routes per VRF the target mentions, second compare silent for both print forms, empty script only for an equivalent device",
+			Rule:        "states = distinct device-model states (per worker, summed); transitions = runs of the real planner; enumerated: all (device,target) pairs of the spaces acl (block structured, device printed with and without IOS-XE sequence numbers), acl-log (the same rule with none/log/log-input on either side, len<=4), rt, vrf, vrf-intf (every VRF known through an interface), intf, intf-kw (sub-interfaces printed with their type behind the name), crypto, value-edit (one argument token of the target changed by a single-character edit), noise (one unmodelled toplevel block inserted at every toplevel position; the script must equal the one without it), raw-blocks (target ACL = two blocks of that ACL in the raw file + the Netspoc lines, device another sequence: incremental change towards a merged target), corpus (ios_*.t) and a breadth-first chain of approves; the script is executed on the reference IOS model (sequence numbers, resequence, interface and crypto-map sub-modes); oracle: per managed interface the bound ACLs as sequences of maximal same-action runs (each a set), routes per VRF the target mentions, second compare silent for both print forms, empty script only for an equivalent device",
 			Assumptions: []string{"reference IOS model validated against the repository's DEVICE/NETSPOC/OUTPUT triples"},
 			Bounds:      map[string]any{"quick": "acl len<=3 over 6 lines, len<=4 over 5 lines, log variants len<=4", "thorough": "acl len<=4 over 8 lines"},
 		}
